@@ -19,6 +19,7 @@ type c16Case struct {
 	Pos   int    `json:"pos,omitempty"`  // mutate: byte offset inside the block
 	Op    string `json:"op,omitempty"`   // mutate: "del", "dup", "set", "swap" (with the next byte)
 	Byte  int    `json:"byte,omitempty"` // mutate: replacement byte for "set"
+	Lens  []int  `json:"lens,omitempty"` // stream: residue counts of the records of one stream (record k uses Alpha rotated by k)
 }
 
 func (c c16Case) residues() []byte {
@@ -146,6 +147,53 @@ func c16Check(c c16Case) *Violation {
 			}
 			if x.r.lens[0] != c.Len || !bytes.Equal(x.r.data, p) {
 				return viol("scan", "%s record with %d residues reads back %d (Len %d), first difference at %d", x.name, c.Len, len(x.r.data), x.r.lens[0], firstDiff(string(x.r.data), string(p)))
+			}
+		}
+		return nil
+	case "stream":
+		// several records in one stream; all records are collected first and read afterwards (as gts sort does), then
+		// once more: a record must not change because a later one was scanned, whichever path read it
+		var text strings.Builder
+		var wants [][]byte
+		for k, n := range c.Lens {
+			rot := k % len(c.Alpha)
+			pk := c16Case{Len: n, Alpha: c.Alpha[rot:] + c.Alpha[:rot]}.residues()
+			if k%2 == 1 {
+				pk = bytes.ToUpper(pk)
+			}
+			wants = append(wants, pk)
+			text.WriteString(c16Record(n, refOrigin(pk)))
+		}
+		for _, variant := range []struct {
+			name, text string
+		}{{"LF", text.String()}, {"CRLF", crlf(text.String())}} {
+			var seqs []gts.Sequence
+			var errText string
+			if pi := guard(func() {
+				sc := seqio.NewAutoScanner(strings.NewReader(variant.text))
+				for sc.Scan() {
+					seqs = append(seqs, sc.Value())
+				}
+				if err := sc.Err(); err != nil {
+					errText = err.Error()
+				}
+			}); pi != nil {
+				return panicViolation(fmt.Sprintf("scanning a stream of %v residues (%s)", c.Lens, variant.name), pi)
+			}
+			if errText != "" || len(seqs) != len(c.Lens) {
+				return viol("scan", "%s stream of %v residues: %d records, error %q", variant.name, c.Lens, len(seqs), errText)
+			}
+			for round := 0; round < 2; round++ {
+				for k, seq := range seqs {
+					var n int
+					var data []byte
+					if pi := guard(func() { n = gts.Len(seq); data = seq.Bytes() }); pi != nil {
+						return panicViolation(fmt.Sprintf("reading record %d of a stream of %v residues (%s)", k, c.Lens, variant.name), pi)
+					}
+					if n != c.Lens[k] || !bytes.Equal(data, wants[k]) {
+						return viol("stream", "%s stream of %v residues: record %d read after the whole stream was scanned has Len %d and %d residues, first difference at %d", variant.name, c.Lens, k, n, len(data), firstDiff(string(data), string(wants[k])))
+					}
+				}
 			}
 		}
 		return nil
@@ -295,6 +343,28 @@ func TestC16(t *testing.T) {
 		}
 	}
 	e3.done(true)
+	// streams: two to four records of mixed sizes (later ones smaller, equal, larger), collected before they are read
+	e5 := enumPart(t, c16Prop, st, "streams")
+	sizes := []int{0, 1, 7, 59, 60, 61, 97, 131, 150, 211, 1021}
+	for _, a := range sizes {
+		for _, b := range sizes {
+			if !e5.try(c16Case{Mode: "stream", Alpha: "acgt", Lens: []int{a, b}}) {
+				return
+			}
+			if !e5.try(c16Case{Mode: "stream", Alpha: "acgtn", Lens: []int{a, b, a}}) || !e5.try(c16Case{Mode: "stream", Alpha: "acg", Lens: []int{1021, a, 0, b}}) {
+				return
+			}
+		}
+	}
+	// a second record whose LOCUS line falls on every offset around a 4096-byte read boundary
+	for n := 4096 - 900; n <= 4096+100; n++ {
+		if thorough() || n%3 == 0 {
+			if !e5.try(c16Case{Mode: "stream", Alpha: "acgt", Lens: []int{n, 61, n % 53}}) {
+				return
+			}
+		}
+	}
+	e5.done(true)
 	// mutate: every byte offset of the block x {delete, duplicate, set to space/letter/digit/newline}
 	e4 := enumPart(t, c16Prop, st, "mutated-blocks")
 	lens := []int{1, 9, 10, 11, 59, 60, 61, 70, 119, 120, 121}
